@@ -92,6 +92,9 @@ REQUIRED_BUCKETS = ["traj:ks-unc-offcentre-queried", "problem-init:acceleration-
                     "op:lanelet_q", "op:net_copy", "op:goal_reached", "op:find_shape", "op:states_at", "op:by_interval", "op:map_obstacles",
                     "lanelet_q:dyn_by_time", "lanelet_q:obstacles", "lanelet_q:merge_succ"]
 WORKERS = {"quick": 1, "thorough": 8}
+# translator tie: Gen.SrcC18 (the write sets of the read-only operations, regenerated from the working tree of commonroad-io on every
+# run by harness/translate/src_c18.py) is checked completely against the cache / own-state tables of CRModel/PyExtC18.lean
+EXTRA_MODULES = ["CRProps.T18"]
 
 # ------------------------------------------------------------------------------------------------ generators
 
